@@ -53,6 +53,11 @@ ProofSize(c, k) ==
     [] c.s = "mlpst" -> U(0, c.nv, 0, 1, 0, 0)
     [] OTHER -> Z0        \* linear codes: see LinModel
 
+\* ---------------------------------------------------------------- batch proofs (batch_open over a query set)
+\* one single-point proof per distinct POINT behind one length prefix: the number of polynomials queried at a
+\* point and the mix of their degree-bound / hiding settings do not enter (a hiding member adds the one scalar)
+BatchSize(c, npoints) == Plus(U(0, 0, 0, 1, 0, 0), Times(npoints, ProofSize(c, c.k)))
+
 \* ---------------------------------------------------------------- linear codes
 \* modelled proof for a matrix with `rows` rows over N coefficients, t opened columns, tree depth h
 PathSize(h) == U(0, 0, 0, 3 + h, 0, 32 + 32 * h)      \* leaf sibling (len + 32), auth path (len + h x (len? no: 32)), index
@@ -107,9 +112,12 @@ ConstantCommitment == c.s \in {"marlin", "sonic", "ipa", "pst13", "mlpst", "lige
    \A d2 \in SzDegrees : CommSize([c EXCEPT !.deg = d2]) = CommSize(c)
 ConstantKzgProof == c.s \in {"marlin", "sonic", "kzg10", "stream"} => \A d2 \in SzDegrees, k2 \in SzPolys : ProofSize([c EXCEPT !.deg = d2], k2) = ProofSize(c, c.k)
 IpaLogarithmic == c.s = "ipa" => ProofSize(c, c.k).g = 2 * Log2Ceil(Pow2Ceil(c.deg + 1, 1)) + 1 + (IF c.hid THEN 1 ELSE 0)
+BatchPerPoint == c.s \in {"marlin", "sonic", "ipa", "pst13"} =>
+   \A k2 \in SzPolys, b2 \in BOOLEAN : BatchSize([c EXCEPT !.k = k2, !.bound = b2], 2).g = 2 * ProofSize(c, c.k).g
 HyraxSquareRoot == c.s = "hyrax" => CommSize(c).g * CommSize(c).g = Pow2(c.nv)
 
 Dump == done => PrintT(<<"DUMP", ToJson([cfg |-> c, comm |-> CommSize(c), proof |-> ProofSize(c, c.k),
+                                         batch2 |-> BatchSize(c, 2),
                                          lin |-> LinCode,
                                          lin_best |-> IF LinCode THEN BestLin(c.s, NCoeffs) ELSE 0,
                                          lin_shapes |-> IF LinCode THEN LinShapes(c.s, NCoeffs) ELSE {},
